@@ -50,6 +50,19 @@ def exhaust(ctx, prop, mode, features, profile, depth, shards, variant="weak", f
     return steps
 
 
+def evolve(ctx, prop, mode, features, profile, count, shards, faults="none", extra=(), timeout=900, tool="native", alloc="quarantine"):
+    """Novelty-guided mutational generator (harness/src/evolve.rs): corpus = directed histories + random seeds + every
+    history that showed a behaviour feature not seen before; children by small edits; same oracles as everything else."""
+    steps = []
+    seed = sd(ctx, mode, features, profile, "evolve", faults, tool)
+    for i in range(shards):
+        args = ["--mode", mode, "--gen", "evolve", "--seed", str(seed), "--count", str(count), "--shard", str(i), "--nshards", str(shards),
+                "--props", prop, "--alloc", alloc, "--faults", faults] + list(extra)
+        name = "%s-%s-evolve-%s-%s-%d" % (tool, mode, features.replace(",", "+") or "none", profile, i)
+        steps.append(ctx.step(name, "harness", "ccmon", args, features=features, profile=profile, tool=tool, timeout=timeout, crash_property=prop))
+    return steps
+
+
 def standard_plan(ctx, prop, mode=None, faults="none", quick_n=40000, thorough_n=600000, miri_quick=(36, 12), miri_thorough=(640, 32),
                   need_weak=False, need_cleaners=False, need_fin=False, extra=(), extra_modes=()):
     """Random histories over the feature sets / profiles, the directed corpus, Miri, and (thorough) ASan + memcheck."""
@@ -77,6 +90,9 @@ def standard_plan(ctx, prop, mode=None, faults="none", quick_n=40000, thorough_n
             steps += native(ctx, prop, m, FULL, "debug", quick_n // 2, 2, extra=extra)
         if ok(FULL) and not extra:
             steps += exhaust(ctx, prop, mode, FULL, "debug", 5, 2, variant="cleaners" if need_cleaners else "weak", faults=faults)
+        if ok(FULL):
+            steps += evolve(ctx, prop, mode, FULL, "release", max(quick_n // 4, 6000), 3, faults=faults, extra=extra)
+            steps += evolve(ctx, prop, mode, FULL, "debug", max(quick_n // 8, 3000), 1, faults=faults, extra=extra)
         if miri_quick:
             steps += miri(ctx, prop, mode, FULL, miri_quick[0], miri_quick[1], faults="none", extra=extra)
     else:
@@ -98,6 +114,13 @@ def standard_plan(ctx, prop, mode=None, faults="none", quick_n=40000, thorough_n
                 steps += exhaust(ctx, prop, mode, NONE, "debug", 7, 8, variant="noweak", faults=faults, timeout=3000)
             if ok(FINONLY):
                 steps += exhaust(ctx, prop, mode, FINONLY, "release", 7, 8, variant="noweak", faults=faults, timeout=3000)
+        if ok(FULL):
+            steps += evolve(ctx, prop, mode, FULL, "release", max(thorough_n // 4, 60000), 12, faults=faults, extra=extra, timeout=3000)
+            steps += evolve(ctx, prop, mode, FULL, "debug", max(thorough_n // 10, 20000), 4, faults=faults, extra=extra, timeout=3000)
+            steps += evolve(ctx, prop, mode, FULL, "release", max(thorough_n // 60, 4000), 4, faults=faults, tool="asan", alloc="track", extra=extra, timeout=3000)
+        for fs in sets:
+            if fs != FULL and fs in (NOFIN, FINONLY, NONE, WEAK):
+                steps += evolve(ctx, prop, mode, fs, "release", max(thorough_n // 12, 20000), 2, faults=faults, extra=extra, timeout=3000)
         steps += native(ctx, prop, mode, FULL, "release", max(thorough_n // 30, 2000), 6, faults=faults, tool="asan", alloc="track", extra=extra, timeout=3000)
         steps += native(ctx, prop, mode, FULL, "release", max(thorough_n // 300, 300), 4, faults=faults, tool="valgrind", alloc="track", extra=extra, timeout=3000)
         steps += native(ctx, prop, mode, FULL, "release", 0, 1, faults=faults, gen="directed", tool="valgrind", alloc="track", extra=extra, timeout=3000)
